@@ -701,7 +701,7 @@ pub fn run(ctx: &Ctx) -> Outcome {
     if let Some(p) = &ctx.replay {
         return replay(p, out);
     }
-    let depth = if ctx.quick() { 3 } else { 5 };
+    let depth = if ctx.quick() { 4 } else { 5 };
     let deadline = Instant::now() + Duration::from_secs_f64(ctx.budget_s);
     let mut states = 0u64;
     let mut transitions = 0u64;
